@@ -61,6 +61,18 @@ extern "C" void h_dis()
   for (int i = 0; i < 16; i++) { g_win[i] = nondet_uchar(); g_win2[i] = nondet_uchar(); }
   unsigned address = nondet_uint(); ASSUME(address < 0x7fff0000u && (address % UNIT) == 0);
   int flags = nondet_int();
+  /* input classes: a listed known finding is confined to its class (-DONLY_...), the complementary
+     group (-DEXCLUDE_...) must be clean, so a different failing input is still reported */
+#ifdef CLASS_MASK
+  {
+    unsigned w0 = g_win[0] | (g_win[1] << 8);
+#ifdef CLASS_ONLY
+    ASSUME((w0 & CLASS_MASK) == CLASS_VAL);
+#else
+    ASSUME((w0 & CLASS_MASK) != CLASS_VAL);
+#endif
+  }
+#endif
   g_base = address; g_max_off = 0; g_outside = 0; g_sel = 0;
   int count = DISFN(&m, address, instruction, sizeof(instruction), flags, &cmin, &cmax);
 #ifndef VERIF_CBMC
